@@ -211,14 +211,14 @@ CHECKS["C11"]["harnesses"] += [
 CHECKS["C11"]["outside"] = ["scale factors that are not powers of two", "models with more than 2 spaces / 2 walls", "off-grid geometry", "net volume with a ceiling element (net height is decided separately in space_area_height)"]
 
 CHECKS["C17"]["harnesses"] += [
-    {"name": "c17::sched::week_to_days", "tier": "thorough", "timeout_thorough": 2700, "bound": "weekly schedules of two runs (3+4, 0+7), daily ids symbolic", "kani_args": NOOVF, "cbmc_args": FS, "functions": ["ScheduleWeek::to_day_sch"]},
+    {"name": "c17::sched::week_to_days", "tier": "off", "bound": "weekly schedules of two runs (3+4, 0+7), daily ids symbolic", "kani_args": NOOVF, "cbmc_args": FS2K, "functions": ["ScheduleWeek::to_day_sch"]},
     {"name": "c17::sched::end_dates_partition", "witness": True, "bound": "every increasing list of 3 end dates ending on 31 Dec", "functions": ["convert::from_ctehexml::day_of_year"]},
-    {"name": "c17::sched::year_as_days", "tier": "thorough", "timeout_thorough": 2700, "bound": "3 periods of (3,2,4) days over weekly schedules with runs (2+5) and (5+2): lengths concrete, the daily schedules the runs refer to symbolic", "kani_args": NOOVF, "cbmc_args": FS, "stubs": FMT, "timeout_quick": 900,
+    {"name": "c17::sched::year_as_days", "tier": "off", "bound": "3 periods of (3,2,4) days over weekly schedules with runs (2+5) and (5+2): lengths concrete, the daily schedules the runs refer to symbolic", "kani_args": NOOVF, "cbmc_args": FS, "stubs": FMT, "timeout_quick": 900,
      "functions": ["SchedulesDb::get_year_as_day_sch", "ScheduleWeek::to_day_sch"]},
-    {"name": "c17::sched::year_as_days_b", "tier": "thorough", "timeout_thorough": 2700, "bound": "periods (8,0,2) with runs (1+6) and (1,3,5) with runs (3+4, 0+7) and a missing weekly schedule for the third period", "kani_args": NOOVF, "cbmc_args": FS, "stubs": FMT, "timeout_quick": 900,
+    {"name": "c17::sched::year_as_days_b", "tier": "off", "bound": "periods (8,0,2) with runs (1+6) and (1,3,5) with runs (3+4, 0+7) and a missing weekly schedule for the third period", "kani_args": NOOVF, "cbmc_args": FS, "stubs": FMT, "timeout_quick": 900,
      "functions": ["SchedulesDb::get_year_as_day_sch", "ScheduleWeek::to_day_sch"]},
 ]
-CHECKS["C17"]["outside"] = ["schedules_from_bdl itself (string-keyed IdMaps): only its date arithmetic is decided", "schedule expansion in the quick tier: SchedulesDb::get_year_as_day_sch / ScheduleWeek::to_day_sch (flat_map over vec![id; n]) need 540 s of symbolic execution for ONE weekly schedule with concrete run lengths; registered in the thorough tier only", "yearly occupied time and mean internal load", "symbolic period and run lengths (vectors of symbolic length exhaust the solver): the lengths are the concrete ones listed per harness"]
+CHECKS["C17"]["outside"] = ["schedules_from_bdl itself (string-keyed IdMaps): only its date arithmetic is decided", "schedule expansion (SchedulesDb::get_year_as_day_sch / ScheduleWeek::to_day_sch: flat_map over vec![id; n]): 560 s of symbolic execution and 2.5 M program steps for ONE weekly schedule with concrete run lengths, then out of memory; harnesses kept in harness/src/c17.rs but not registered in any tier", "yearly occupied time and mean internal load", "symbolic period and run lengths (vectors of symbolic length exhaust the solver): the lengths are the concrete ones listed per harness"]
 
 CHECKS["C14"] = {
     "title": "indicator computation is total (partial)",
